@@ -95,6 +95,77 @@ pub fn run(st: &mut State, op: &str, cmd: &Value) -> Value {
             let _ = std::fs::remove_dir_all(&base);
             r
         }
+        // ---- life cycle on one handle (spec/Lifecycle.tla): patch and repair change the disk under the handle
+        "archive.reopen" => {
+            let Some(base) = st.archive.dirs.get(&h).cloned() else {
+                return json!({"outcome": "nohandle"});
+            };
+            let mut game = base.clone();
+            game.push("game");
+            let dir = game.to_str().unwrap().to_string();
+            let mut opened = None;
+            let r = guarded(|| {
+                let g = GameData::from_existing(crate::ops_names::platform(geti(cmd, "plat")), &dir);
+                let v = opt(g.as_ref(), |g| {
+                    json!(g.repositories.iter().map(crate::ops_names::repo_num).collect::<Vec<i64>>())
+                });
+                opened = g;
+                value(v)
+            });
+            st.archive.handles.remove(&h);
+            if let Some(g) = opened {
+                st.archive.handles.insert(h, g);
+            }
+            r
+        }
+        "archive.patch" | "archive.needs_repair" | "archive.perform_repair" | "archive.disk" => {
+            let Some(base) = st.archive.dirs.get(&h).cloned() else {
+                return json!({"outcome": "nohandle"});
+            };
+            let Some(g) = st.archive.handles.get(&h) else {
+                return json!({"outcome": "nohandle"});
+            };
+            let todo = |g: &GameData| -> Value {
+                Value::Array(g.needs_repair().unwrap_or_default().iter().map(|(r, a)| {
+                    json!({"repo": crate::ops_names::repo_num(r), "action": match a {
+                        physis::gamedata::RepairAction::VersionFileMissing => "missing",
+                        physis::gamedata::RepairAction::VersionFileCanRestore => "restore",
+                    }})
+                }).collect())
+            };
+            let mut res = match op {
+                "archive.patch" => {
+                    let mut pp = base.clone();
+                    pp.push("life.patch");
+                    std::fs::write(&pp, unhex(cmd["_patch"].as_str().unwrap_or(""))).unwrap();
+                    let ps = pp.to_str().unwrap().to_string();
+                    guarded(|| match g.apply_patch(&ps) {
+                        Ok(()) => value(json!("ok")),
+                        Err(e) => json!({"outcome": "fail", "err": format!("{e:?}")}),
+                    })
+                }
+                "archive.needs_repair" => guarded(|| value(todo(g))),
+                "archive.perform_repair" => guarded(|| {
+                    let list = g.needs_repair().unwrap_or_default();
+                    let t = todo(g);
+                    match g.perform_repair(&list) {
+                        Ok(()) => value(json!({"todo": t, "done": true})),
+                        Err(_) => value(json!({"todo": t, "done": false})),
+                    }
+                }),
+                _ => value(json!(true)),
+            };
+            // which of the probed files exist now (relative to the game directory)
+            let mut game = base.clone();
+            game.push("game");
+            let present: Vec<Value> = cmd["probe"].as_array().cloned().unwrap_or_default().iter().map(|p| {
+                let mut f = game.clone();
+                f.push(p.as_str().unwrap_or("x"));
+                json!(f.exists())
+            }).collect();
+            res["present"] = Value::Array(present);
+            res
+        }
         _ => toolerror(&format!("unknown op {op}")),
     }
 }
